@@ -73,6 +73,15 @@ func (o oracle) dump(store string) string {
 	return strings.Join(parts, ",")
 }
 
+// applyRoute: 0 direct, 1 through CacheMultiStore()+Write(), 2 through a nested cache wrap.
+func applyRoute(ms *msdrive.MS, b []write, route int) {
+	ws := make([]msdrive.Write, len(b))
+	for i, w := range b {
+		ws[i] = msdrive.Write{Store: w.store, Del: w.del, K: w.k, V: w.v}
+	}
+	ms.ApplyWritesRoute(ws, route)
+}
+
 func renderEvents(evs []faultdb.Event) string {
 	if len(evs) == 0 {
 		return "-"
@@ -178,13 +187,11 @@ func main() {
 			}
 			var snaps []oracle
 			for bi, b := range blocks {
+				applyRoute(ms, b, (bi+len(b))%3)
 				for _, w := range b {
-					kv := ms.KV(w.store)
 					if w.del {
-						_ = kv.Delete(w.k)
 						delete(o[w.store], string(w.k))
 					} else {
-						_ = kv.Set(w.k, w.v)
 						o[w.store][string(w.k)] = w.v
 					}
 				}
@@ -263,14 +270,7 @@ func main() {
 				panic(err)
 			}
 			for bi, b := range blocks {
-				for _, w := range b {
-					kv := ms.KV(w.store)
-					if w.del {
-						_ = kv.Delete(w.k)
-					} else {
-						_ = kv.Set(w.k, w.v)
-					}
-				}
+				applyRoute(ms, b, (bi+len(b))%3)
 				id := ms.Store.Commit()
 				t.Line("replica", true, "replica %d => %s", bi, msdrive.CID(id))
 			}
